@@ -33,7 +33,7 @@ func TestVerif(t *testing.T) {
 		}
 	}()
 	if job.Replay != "" {
-		runReplay(c, job.Replay)
+		runReplay(t, c, job.Replay)
 	} else {
 		run, ok := registry[job.Prop]
 		if !ok {
@@ -53,7 +53,12 @@ var registry = map[string]func(t *testing.T, c *Collector){
 		scs := c16Scenarios(c.job.Tier)
 		c.res.Bound = fmt.Sprintf("%d scenarios, preemption bound %d", len(scs), scs[0].Bound)
 		runConcScenarios(t, c, scs)
-		c.res.Engine = "R (schedule enumerator in a -race build with a detector-invisible hand-off, real file system)"
+		iters := 15
+		if c.job.Tier != "quick" {
+			iters = 100
+		}
+		freeRunRace(c, scs, iters)
+		c.res.Engine = "R (schedule enumerator in a -race build with a detector-invisible hand-off, real file system) + free-running -race pass of the same scenario bodies"
 	},
 	"C10": func(t *testing.T, c *Collector) {
 		c.res.Rule = "legacy stores (version-2 single-file index, unversioned single-file primary, legacy freelist present or absent, primary tail cut off or not) generated from a set of histories with overwrites and removals; opened with every combination of index/primary file-size limits from {1,40,64,default}: contents must equal the generating map (cut-off keys absent), through a continuation with GC and a rescan reopen; every crash point and torn write of the upgrading open: reopening must complete the upgrade with the same contents; non-trivial = stores with >= 2 keys, plus torn images"
@@ -115,8 +120,18 @@ var registry = map[string]func(t *testing.T, c *Collector){
 	},
 	"C03": func(t *testing.T, c *Collector) {
 		c.res.Rule = "every crash point (between consecutive file-system mutations) and every torn byte-prefix of every write of the last op of every history of <= depth ops (Put/Remove/Flush/IndexGC/PrimaryGC/Close+Open) after each preamble x configuration, incl. the initial Open; recovery by the real OpenStore; oracle: per-key allowed-value sets + continuation battery through GC and reopen; evaluations = distinct (image, allowed-set) pairs recovered; non-trivial = torn-write images"
-		runCrashScenarios(c, c03Scenarios("C03", c.job.Tier))
+		if os.Getenv("VERIF_ONLY") != "conc" { // development aid: concurrent part alone
+			runCrashScenarios(c, c03Scenarios("C03", c.job.Tier))
+		}
 		c.count("nontrivial", c.res.Counters["torn_images"])
+		if !c.expired() {
+			engine := c.res.Engine
+			scs := c03ConcScenarios(c.job.Tier)
+			runConcScenarios(t, c, scs)
+			c.res.Engine = engine + " + A+X (every crash point of every enumerated interleaving of a Flush / GC thread with callers)"
+			c.res.Rule += "; concurrent part: every schedule (<= bound preemptions) of a Flush or GC thread against callers is followed by the crash-image enumeration of that execution's own mutation log, with allowed-value sets derived from the call/return history (a write is ruled out only if a later write to the key returned before a Flush was invoked that completed before the crash)"
+			c.res.Bound += fmt.Sprintf("; %d concurrent crash scenarios with preemption bound %d", len(scs), scs[0].Bound)
+		}
 	},
 	"C15": func(t *testing.T, c *Collector) { runC15(c) },
 	"C02": func(t *testing.T, c *Collector) {
